@@ -784,7 +784,7 @@ func (multi *MultiEpoch) processSlotTransactions(
 					break // Found at least one included account, no need to check others
 				}
 			}
-			if !hasOne { // If none of the included accounts are present, filter out the transaction
+			if len(filter.AccountInclude) > 0 && !hasOne { // If none of the included accounts are present, filter out the transaction
 				return false
 			}
 		}
